@@ -19,11 +19,11 @@ struct Enumerate<'a> {
 fn re_grid(op: Op, operand: usize) -> Vec<f64> {
     match (op, operand) {
         (Op::Div, 1) => vec![0.5, -0.5, 1.0, -1.0, 2.0, -2.0, 4.0, -4.0],
-        (Op::Div, _) => vec![-3.0, 1.0, 2.0],
+        (Op::Div, _) => vec![-3.0, 0.0, 2.0],
         (Op::Recip, _) => vec![0.5, -0.5, 1.0, -1.0, 2.0, -2.0, 4.0, -4.0],
         (Op::Powi(n), _) if n < 0 => vec![0.5, -0.5, 1.0, -1.0, 2.0, -2.0, 4.0, -4.0],
-        (Op::Powi(_), _) => vec![-3.0, -2.0, -1.0, -0.5, 0.5, 1.0, 2.0, 3.0],
-        _ => vec![-3.0, -0.5, 2.0],
+        (Op::Powi(_), _) => vec![-3.0, -2.0, -1.0, -0.5, 0.0, 0.5, 1.0, 2.0, 3.0],
+        _ => vec![-3.0, 0.0, 2.0],
     }
 }
 
